@@ -21,7 +21,6 @@ structure SubstPre (h : NNet) (c : Nat) (m : NNet) (sh : Shape) (dn : Nat) (map 
   -- regular use
   insLen : (h.net.node c).ins.length ≤ sh.inPorts.length
   noIgn : ∀ k ll inn, instIn h c k = some ll → sh.inPorts[k]? = some inn → (m.net.node inn).outs.length ≠ 0
-  outsAll : ∀ k il, sh.outLines[k]? = some il → ∃ ll, instOut h c k = some ll
   -- nodes
   nsize : h.net.nodes.size ≤ h'.net.nodes.size
   frameNode : ∀ d, d < h.net.nodes.size → d ≠ c → h'.net.node d = h.net.node d
